@@ -75,7 +75,32 @@ pub fn miri_summary(prop: &str, args: &Args) -> (EvidenceExtra, Vec<(String, Str
                     }
                 }
             }
-            j
+            // interleavings observed under Miri's scheduler, per process (C17's concurrent shape)
+            let mut counts: Vec<J> = Vec::new();
+            let mut digests: std::collections::BTreeSet<String> = Default::default();
+            let mut total = 0i64;
+            for k in 0..procs {
+                if let Ok(t) = std::fs::read_to_string(format!("{}/slice-{}.log", logs, k)) {
+                    for l in t.lines() {
+                        if let Some(i) = l.find("concurrent shape: ") {
+                            let rest = &l[i + 18..];
+                            let n: i64 = rest.split(' ').next().and_then(|x| x.parse().ok()).unwrap_or(0);
+                            total += n;
+                            counts.push(J::Int(n));
+                            if let Some(d) = rest.rsplit(' ').next() {
+                                digests.insert(d.to_string());
+                            }
+                        }
+                    }
+                }
+            }
+            if !counts.is_empty() {
+                j.set("interleavings_observed", J::Int(total))
+                    .set("interleavings_per_process", J::Arr(counts))
+                    .set("distinct_process_digests", J::Int(digests.len() as i64))
+            } else {
+                j
+            }
         }
         None => J::obj().set("ran", J::Bool(false)).set(
             "reason",
